@@ -103,6 +103,23 @@ def worker(scratch):
                 kstep(ctypes.addressof(sim), dt)
                 res = " ".join(d2h(c) for i in range(n) for c in getp(pj[i + 1]))
                 sim = None
+            elif op == "hstep":
+                which, G, dt, m0 = t[2], h2d(t[3]), h2d(t[4]), h2d(t[5])
+                vals = [h2d(s) for s in t[6:]]
+                n = len(vals) // 7
+                sim = rebound.Simulation()
+                sim.G = G
+                sim.add(m=m0)
+                for i in range(n):
+                    sim.add(m=vals[7 * i], x=vals[7 * i + 1], y=vals[7 * i + 2], z=vals[7 * i + 3],
+                            vx=vals[7 * i + 4], vy=vals[7 * i + 5], vz=vals[7 * i + 6])
+                sim.ri_whfast._timestep_warning = 1
+                fn = clib.reb_integrator_mercurius_kepler_step if which == "mercurius" else clib.reb_integrator_trace_whfast_step
+                fn.argtypes = [ctypes.c_void_p, ctypes.c_double]
+                fn.restype = None
+                fn(ctypes.addressof(sim), dt)
+                res = " ".join(d2h(c) for i in range(n) for c in getp(sim.particles[i + 1]))
+                sim = None
             elif op == "step":
                 integ, coord = t[2], t[3]
                 v = [h2d(s) for s in t[4:]]
@@ -462,7 +479,7 @@ def run_(c):
         c.count(("table", len(got)), n=len(got))
 
     # ---------------------------------------------------------------- solver tie + search
-    ncase = 12000 if c.thorough else 1800
+    ncase = 60000 if c.thorough else 1800
     cases = []
     for i in range(ncase):
         rng = c.rng.fork()
@@ -681,7 +698,7 @@ def run_(c):
     c.cov["nonfinite_results"] = nonfinite
 
     # ---------------------------------------------------------------- mass parameter: reb_whfast_kepler_step tie
-    nk = 400 if c.thorough else 80
+    nk = 1600 if c.thorough else 80
     klines, kmodel, kmeta = [], [], []
     for i in range(nk):
         rng = c.rng.fork()
@@ -746,8 +763,54 @@ def run_(c):
     if kdis:
         c.corr_break("%d of %d reb_whfast_kepler_step calls differ from the model (mass parameter per coordinate system / solver)" % (kdis, len(keep)), kfirst)
 
+    # ---------------------------------------------------------------- MERCURIUS / TRACE Kepler steps (exported, in place, dh)
+    nh = 600 if c.thorough else 40
+    hmodel, hlines, hmeta = [], [], []
+    for i in range(nh):
+        rng = c.rng.fork()
+        which = ("mercurius", "trace")[i % 2]
+        n = rng.randint(1, 4)
+        G = 10 ** rng.uniform(-3, 3)
+        m0 = 10 ** rng.uniform(-3, 3)
+        dt = None
+        parts = []
+        for k in range(n):
+            o = gen_orbit(rng, e=rng.uniform(0, 0.9) if rng.chance(0.8) else rng.uniform(1.2, 3.0), M=G * m0,
+                          a=10 ** rng.uniform(-1, 1), dt_over_P=rng.uniform(-1, 1) * (1.0 if k else rng.choice([1e-3, 0.1, 3.0])))
+            if dt is None:
+                dt = o["dt"]
+            parts.append([m0 * 10 ** rng.uniform(-6, 0)] + o["st"])
+        flat = " ".join(d2h(v) for pp in parts for v in pp)
+        hmodel.append("hstep %s %s %s %s" % (d2h(G), d2h(m0), d2h(dt), flat))
+        hlines.append("hstep %d %s %s %s %s %s" % (i, which, d2h(G), d2h(dt), d2h(m0), flat))
+        hmeta.append((which, n))
+    hmo = run_driver(exe, hmodel)
+    hkeep = [i for i in range(nh) if "hang" not in hmo[i]]
+    hro = real.run([hlines[i] for i in hkeep])
+    hdis, hfirst, hwithin = 0, None, 0
+    for i in hkeep:
+        which, n = hmeta[i]
+        mres = " ".join(hmo[i].split(" | ")[1:])
+        ans = hro.get(str(i), "")
+        c.count(("hstep", which, n))
+        if ans != mres:
+            a, b = ans.split(), mres.split()
+            good = len(a) == len(b) == 6 * n
+            if good:
+                for q in range(n):
+                    good = good and reldiff(a[6 * q:6 * q + 6], b[6 * q:6 * q + 6], b[6 * q:6 * q + 6]) <= 1e-9
+            if good:
+                hwithin += 1
+            else:
+                hdis += 1
+                if hfirst is None:
+                    hfirst = {"routine": which, "n": n, "model_line": hmodel[i], "model": hmo[i], "impl": ans}
+    c.cov["hybrid_kepler_step_calls_compared"] = {"total": len(hkeep), "not_bit_identical_but_within_1e-9": hwithin, "disagreements": hdis}
+    if hdis:
+        c.corr_break("%d of %d reb_integrator_mercurius_kepler_step / reb_integrator_trace_whfast_step calls differ from the model (M = G*particles[0].m)" % (hdis, len(hkeep)), hfirst)
+
     # ---------------------------------------------------------------- tangent map tie
-    nv = 1500 if c.thorough else 250
+    nv = 5000 if c.thorough else 250
     vcases, vlines = [], []
     for i in range(nv):
         rng = c.rng.fork()
@@ -773,22 +836,53 @@ def run_(c):
                 vdis += 1
                 if vfirst is None:
                     vfirst = {"input": vlines[i], "model": vmo[i], "impl": ans, "meta": vcases[i]["meta"]}
+    # reference for every variational case: 50-digit flow + central-difference tangent (100 digits)
+    vol = []
+    for i in vkeep:
+        a = vro.get(str(i), "").split()
+        if len(a) == 12:
+            t = vlines[i].split()
+            vol.append("%d %s %s %s %s" % (i, " ".join(t[1:9]), " ".join(a[:6]), " ".join(t[9:15]), " ".join(a[6:12])))
+    vref = run_oracle(vol)
     vwithin = 0
-    if vpend:
-        vref = run_oracle(["%d %s %s" % (i, " ".join(vlines[i].split()[1:9]), " ".join(vro[str(i)].split()[:6])) for i in vpend])
-        for i in vpend:
-            j = vref.get(str(i))
-            a, b = vro[str(i)].split(), vmo[i].split()[:12]
-            good = j is not None and "error" not in j and j["kind"] != "line" and j.get("finite", False)
-            if good:
-                unit = SAFETY * tolerance(j)
-                good = reldiff(a[:6], b[:6], j["ref"]) <= unit and reldiff(a[6:], b[6:], b[6:]) <= 1e3 * unit
-            if good:
-                vwithin += 1
-            else:
-                vdis += 1
-                if vfirst is None:
-                    vfirst = {"input": vlines[i], "model": vmo[i], "impl": vro[str(i)], "meta": vcases[i]["meta"]}
+    for i in vpend:
+        j = vref.get(str(i))
+        a, b = vro[str(i)].split(), vmo[i].split()[:12]
+        good = j is not None and "error" not in j and j["kind"] != "line" and j.get("finite", False)
+        if good:
+            unit = SAFETY * tolerance(j)
+            good = reldiff(a[:6], b[:6], j["ref"]) <= unit and reldiff(a[6:], b[6:], j.get("tref", b[6:])) <= unit * (1 + j["ndt"])
+        if good:
+            vwithin += 1
+        else:
+            vdis += 1
+            if vfirst is None:
+                vfirst = {"input": vlines[i], "model": vmo[i], "impl": vro[str(i)], "meta": vcases[i]["meta"]}
+    # search: the tangent map of the real code against the derivative of the exact flow
+    tworst, tn = None, 0
+    for i in vkeep:
+        j = vref.get(str(i))
+        if j is None or "error" in j or j["kind"] == "line" or "tref" not in j:
+            continue
+        if j["kind"] == "hyp" and j["hyp_s"] > 300.0:
+            continue                         # F14 domain (reported by the solver part)
+        o = vcases[i]
+        rep = {"M": o["M"], "state": o["st"], "dt": o["dt"], "variation": o["dst"], "meta": o["meta"],
+               "got": [h2d(x) for x in vro[str(i)].split()[6:12]], "reference": [h2d(x) for x in j["tref"]]}
+        tn += 1
+        if not j.get("tfinite", False):
+            c.violation("tangent-nonfinite", "variational particle is NaN/inf after the Kepler step (e=%.6g dt/P=%.3g)" % (o["meta"]["e"], o["meta"]["dtP"]), rep)
+            continue
+        unit = tolerance(j) * (1 + j["ndt"])
+        terr = max(j["terrx"], j["terrv"])
+        if tworst is None or terr / unit > tworst["ratio"]:
+            tworst = {"ratio": terr / unit, "err": terr, "e": j["e"], "ndt": j["ndt"]}
+        if terr > SAFETY * unit:
+            rep.update(err=terr, allowed=SAFETY * unit)
+            c.violation("tangent-inexact:" + ("hyp" if j["kind"] == "hyp" else "ell"),
+                        "tangent map of the Kepler step differs from the derivative of the exact flow by %.3g (allowed %.3g), e=%.6g dt/P=%.3g"
+                        % (terr, SAFETY * unit, o["meta"]["e"], o["meta"]["dtP"]), rep)
+    c.cov["tangent_map_search"] = {"cases": tn, "worst_error_over_unit": tworst, "allowed": SAFETY}
     c.cov["tangent_map_calls_compared"] = {"total": len(vkeep), "not_bit_identical_but_within_tolerance": vwithin, "disagreements": vdis}
     if vdis:
         c.corr_break("%d of %d solver calls with a variational particle differ from the model (stumpff_cs / stiefel_Gs / tangent map)" % (vdis, len(vkeep)), vfirst)
@@ -796,7 +890,7 @@ def run_(c):
     # ---------------------------------------------------------------- one full sim.step() per integrator
     groups = [("whfast", "jacobi", "any"), ("whfast", "whds", "any"), ("saba", "-", "any"),
               ("whfast", "dh", "test"), ("whfast", "bary", "test"), ("mercurius", "-", "test"), ("trace", "-", "test")]
-    per = 150 if c.thorough else 30
+    per = 600 if c.thorough else 30
     slines, sinfo = [], []
     for integ, coord, mk in groups:
         for rep in range(per):
@@ -852,7 +946,12 @@ def run_(c):
             c.violation("step-nonfinite:" + name, "one %s step returns NaN/inf" % name, rep)
             continue
         err = max(j["errx"], j["errv"])
-        unit = tolerance(j) * (1.0 + 2.0 * offk)
+        # one DKD step is two Kepler half steps: the rounding error of the first is carried through the second,
+        # whose Jacobian is bounded by J = max_orbit(kbeta) * n|dt| * amp  (max kbeta = 4/|1-e|);
+        # calibrated on 5000 clean-tree steps: max err/unit = 2.2 with this factor, 4.8e6 without
+        e_ = j["e"]
+        J = (4.0 / abs(1.0 - e_) if e_ != 1.0 else float("inf")) * j["ndt"] * max(1.0, j["amp_x"], j["amp_v"])
+        unit = tolerance(j) * (1.0 + J) * (1.0 + 2.0 * offk)
         ratio = err / unit
         w = sworst.get(name)
         if w is None or ratio > w["ratio"]:
